@@ -4,6 +4,7 @@ import (
 	"fmt"
 	"go/token"
 	"go/types"
+	"os"
 	"sort"
 	"strings"
 
@@ -1369,6 +1370,26 @@ func checkKeyAgreement(r *Report, p *Prog) {
 					perFnInstr[coll] = map[skey][]RI{}
 				}
 				perFnInstr[coll][k] = append(perFnInstr[coll][k], xi)
+				// the item addressed is the item the client named: what fills the %s is a datum of the request or of a
+				// stored record as it is (path element, cookie value, form value, record field, listed name) - on every
+				// path, with no function applied to it (an unescape, a trim, a case fold make DELETE /x/{id} answer for
+				// another key than the one GET, PUT and the login path use)
+				for _, o := range rg.Origins(RV{V: keyArg, C: xi.C}) {
+					av := storeKeyArg(o.V)
+					if av == nil {
+						continue
+					}
+					bad := ""
+					for _, lf := range rg.Origins(RV{V: av, C: o.C}) {
+						if os.Getenv("SAMLVERIF_DEBUG") != "" {
+							fmt.Printf("DEBUG storekey %s %s %q leaf %T %s\n", p.FnName(in.Parent()), kind, k.format, lf.V, rg.Ctx(a, lf.C).AP(lf.V))
+						}
+						if why := keyDatumTransformed(lf.V); why != "" {
+							bad = why
+						}
+					}
+					r.Check(bad == "", rule, fmt.Sprintf("%s: %s addresses the item the request names", p.FnName(in.Parent()), kind), p.InstrPos(in), "the key argument is a request or record datum as it is", "the name that fills the store key is "+bad+": this handler addresses another record than the handlers and the login path that use the name as it is (a delete that answers 204 leaves the record in place)")
+				}
 				okF := strings.HasSuffix(k.format, "/%s") && strings.Count(k.format, "%") == 1
 				r.Check(okF, rule, fmt.Sprintf("%s: %s key %q", p.FnName(in.Parent()), kind, k.format), p.InstrPos(in), "collection prefix + one %s", "the store key is not a collection prefix followed by exactly one %s")
 			}
@@ -1987,4 +2008,54 @@ func checkSessionWriters(r *Report, p *Prog, rule string) {
 		}
 	}
 	r.Check(n >= 1 && bad == "", rule, "stored sessions are written by the login path only", "-", fmt.Sprintf("%d writes under %q, all in GetSession or its helpers", n, prefix), "a stored session is (re)written outside the login path ("+bad+"): the holder of an old cookie is then asserted with data that was not the user's when they logged in")
+}
+
+// storeKeyArg: the value that fills the single %s of a store key built by fmt.Sprintf or by prefix + name.
+func storeKeyArg(v ssa.Value) ssa.Value {
+	switch x := v.(type) {
+	case *ssa.Call:
+		if calleeIs(x, "fmt.Sprintf") {
+			if vs := varargValues(x); len(vs) == 1 {
+				return vs[0]
+			}
+		}
+	case *ssa.BinOp:
+		if x.Op == token.ADD {
+			return x.Y
+		}
+	}
+	return nil
+}
+
+// keyDatumTransformed: the leaf a key argument comes from is the result of a function that computes a new string from
+// its argument (anything but the accessors of the request and of url.Values, which hand out what the client sent).
+func keyDatumTransformed(v ssa.Value) string {
+	if ex, ok := v.(*ssa.Extract); ok {
+		v = ex.Tuple
+	}
+	c, ok := v.(*ssa.Call)
+	if !ok {
+		return ""
+	}
+	if c.Call.IsInvoke() {
+		return "" // List of the store, Get of a provider: a stored name
+	}
+	sc := c.Call.StaticCallee()
+	if sc == nil {
+		return ""
+	}
+	switch sc.String() {
+	case "(*net/http.Request).PathValue", "(*net/http.Request).Cookie", "(*net/http.Request).FormValue", "(*net/http.Request).PostFormValue", "(net/url.Values).Get", "(net/http.Header).Get":
+		return ""
+	}
+	hasString := false
+	for _, a := range c.Call.Args {
+		if isStringType(a.Type()) {
+			hasString = true
+		}
+	}
+	if !hasString {
+		return "" // fresh randomness, a clock: not a function of a name
+	}
+	return "the result of " + sc.String()
 }
